@@ -45,22 +45,25 @@ def families(tier):
         widths, precs, lms = ['', '6', '*'], ['', '.0', '.3'], ['', 'hh', 'l']
         few_flags = ['', '-', '0', '+', '#']
     else:
-        widths, precs, lms = ['', '6', '70', '*'], ['', '.', '.0', '.5', '.70', '.*'], ['', 'hh', 'h', 'l', 'll', 'z', 'j']
+        widths, precs, lms = ['', '6', '70', '*'], ['', '.', '.0', '.5', '.*'], ['', 'hh', 'h', 'l', 'll', 'z', 'j']
+        few_flags = ['', '-', '0', '+', '#', '-0', ' ']
     for conv in 'diuoxX':
         for lm in lms:
             cases = []
             for fl in (flagsets if lm == '' else few_flags):
                 if '#' in fl and conv in 'diu':      # undefined in ISO C
                     continue
-                for w in (widths if (tier != 'quick' or lm == '') else ['', '6']):
-                    for p in (precs if (tier != 'quick' or lm == '') else ['', '.3']):
+                for w in (widths if lm == '' else ['', '6']):
+                    for p in (precs if lm == '' else (['', '.3'] if tier == 'quick' else ['', '.0', '.5'])):
                         if tier == 'quick' and w == '*' and p == '.0':
                             continue
                         vals = int_values(conv, lm)
                         if tier == 'quick':
                             vals = vals[:2] + (vals[2:5] if (w == '6' and p == '') else [])
-                        elif w in ('70',) or p in ('.70',):
-                            vals = vals[:3]
+                        elif w in ('70',) or lm != '':
+                            vals = vals[:3] + (vals[3:5] if (w == '6' and p == '') else [])
+                        else:
+                            vals = vals[:5]
                         for v in vals:
                             fmt = '%' + fl + w + p + lm + conv
                             args = []
@@ -98,7 +101,7 @@ def expected(fmt, args):
 
 def emit_c(tier, batch_size=12):
     if tier == 'thorough':
-        batch_size = 24
+        batch_size = 16
     """returns (C text with one table per batch under #if C19_BATCH == k, list of (batch index, family, n cases, sample))"""
     out = ['/* generated by units/fmt/gen.py: directive families and the bytes ISO C (host libc snprintf) prescribes for them */',
            'struct c19_arg { int kind; long long i; const char *s; };',
